@@ -631,8 +631,8 @@ func genCase(t *rapid.T, concurrent bool) (c Case) {
 			Uses:      rapid.SliceOfN(rapid.IntRange(0, nn), 1, 4).Draw(t, "uses"),
 			DirtyCopy: rapid.IntRange(0, 4).Draw(t, "dirtycopy") == 0,
 		}
-		if rapid.IntRange(0, 120).Draw(t, "bigmsg") == 77 {
-			r.BigMsg = rapid.SampledFrom([]int{257, 4097, 10000, 16385, 20000}).Draw(t, "bigmsgsize")
+		if rapid.IntRange(0, 60).Draw(t, "bigmsg") == 7 {
+			r.BigMsg = rapid.SampledFrom([]int{257, 4097, 10000, 16385, 20000, 65537, 70000, 131073}).Draw(t, "bigmsgsize")
 		}
 		calls := rapid.IntRange(0, 3).Draw(t, "calls")
 		for j := 0; j < calls; j++ {
